@@ -372,16 +372,20 @@ func (in *Interp) sliceOp(i *ssa.Slice, env Env) Value {
 			}
 			return in.mkStr(a.B[lo:hi])
 		case *SliceVal:
-			lo := bound(i.Low, 0)
-			hi := bound(i.High, a.Len)
-			mx := bound(i.Max, a.Cap)
-			if lo < 0 || hi > a.Cap || lo > hi || mx > a.Cap || hi > mx {
-				in.panicIf(in.St.T, "slice-bounds")
+			mk := func(lo, hi int) Value {
+				mx := bound(i.Max, a.Cap)
+				if lo < 0 || hi > a.Cap || lo > hi || mx > a.Cap || hi > mx {
+					in.panicIf(in.St.T, "slice-bounds")
+				}
+				if a.Obj == nil {
+					return &SliceVal{}
+				}
+				return &SliceVal{Obj: a.Obj, Off: a.Off + lo, Len: hi - lo, Cap: mx - lo}
 			}
-			if a.Obj == nil {
-				return &SliceVal{}
-			}
-			return &SliceVal{Obj: a.Obj, Off: a.Off + lo, Len: hi - lo, Cap: mx - lo}
+			// symbolic bounds over a small range: one alternative per feasible value
+			return in.resolveInt(i.Low, env, 0, a.Cap, func(lo int) Value {
+				return in.resolveInt(i.High, env, a.Len, a.Cap, func(hi int) Value { return mk(lo, hi) })
+			})
 		case *PtrVal: // pointer to array
 			arr := in.load(a).(*ArrayVal)
 			lo := bound(i.Low, 0)
